@@ -161,6 +161,34 @@ def leg_shape(s, sp, d, dp):
 # ---------------------------------------------------------------- set-up
 
 
+WARM_UP = {"attempted": 0, "returned": 0}
+
+
+def _warm_up():
+    """History before the grid: the scales are first used inside compound units ("per degree":
+    J/K -> J/degF, W/(m.K) ..., degree-seconds) and in comparisons.  None of that may change
+    what a plain scale conversion answers afterwards; outcomes of the warm-up itself (some
+    raise ConversionNotFound) are not judged here."""
+    joule, meter, second = (M.Unit._by_name[n] for n in ("joule", "meter", "second"))
+    scales = [UNITS[k] for k in CHAIN]
+    for x in scales:
+        for y in scales:
+            if x is y:
+                continue
+            for src, dst in ((joule / x, joule / y), (x * second, y * second), (joule / (meter * x), joule / (meter * y)), (x**2, y**2)):
+                WARM_UP["attempted"] += 1
+                try:
+                    (3 * src).in_unit(dst)
+                    WARM_UP["returned"] += 1
+                except Exception:  # noqa
+                    pass
+                try:
+                    (3 * src) == (3 * dst)
+                    (3 * src) < (3 * dst)
+                except Exception:  # noqa
+                    pass
+
+
 def setup(tier):
     global M, PFX_KEYS
     if UNITS:
@@ -189,6 +217,7 @@ def setup(tier):
                 PFX[attr.lower()] = (p, Fraction(p.base) ** int(p.exponent))
                 seen.add(id(p))
     PFX_KEYS = sorted(PFX, key=lambda k: (PFX[k][1], k))
+    _warm_up()
 
 
 def unit_of(scale, prefix):
